@@ -1,5 +1,5 @@
 """C05 — no received bytes can crash or hang the library (layer level + pipeline level)."""
-from . import core, layers as L
+from . import coqreplay, core, layers as L
 
 RULE = ("layer level: every decoder x every length 0..Lmax x contents {zeros, 0xFF, random, structured "
         "(control-flow bytes set), guard-passing (valid checksums / signatures / AES pads with the key known)}; each input is run "
@@ -93,6 +93,7 @@ def run(ch, build):
     cmds = ["dec %s _ %s" % (name, L.hx(data)) for (_, name, data) in cases]
     go = core.harness(cmds)
     model = core.oracle(cmds)
+    coqreplay.cross_check(ch, cmds, model, 300 if ch.quick() else 3000, "C05")
     by = {}
     for i, (fam, name, data) in enumerate(cases):
         by.setdefault(fam, []).append(i)
